@@ -4,10 +4,8 @@ import (
 	"fmt"
 	"os"
 	"os/exec"
-	"runtime"
 	"sort"
 	"strings"
-	"sync"
 	"sync/atomic"
 	"time"
 
@@ -360,6 +358,49 @@ func classifyC20(h History) c20Class {
 	return c
 }
 
+func c20MaxSize(tier string) int {
+	if tier == "thorough" {
+		return 40
+	}
+	return 8
+}
+
+var c20Engine = &engine{
+	prop: "C20", sub: "c20",
+	total: func(tier string) uint64 {
+		if tier == "thorough" {
+			return 20_000_000
+		}
+		return 200_000
+	},
+	gen: func(seed, idx uint64, tier string) (History, bool, uint64, []string) {
+		h := genC20(seed, idx, c20MaxSize(tier))
+		cl := classifyC20(h)
+		var class []string
+		if cl.exhaustion {
+			class = append(class, "exhaustion")
+		}
+		if cl.freeRealloc {
+			class = append(class, "free_then_realloc")
+		}
+		if cl.wrap {
+			class = append(class, "offset_wrap")
+		}
+		if cl.inrange {
+			class = append(class, "allocate_in_range")
+		}
+		if len(h.Instances) > 1 {
+			class = append(class, "multi_instance")
+		}
+		if len(h.Steps) >= 600 {
+			class = append(class, "churn")
+		}
+		return h, cl.exhaustion || cl.freeRealloc || cl.wrap, hashHistory(h), class
+	},
+	run:        func(h History, pg *progress) *Viol { return runC20pg(h, pg) },
+	shrinkArgs: c20ShrinkArgs,
+}
+
 func checkC20(tier string, seed uint64) int {
 	t0 := time.Now()
 	known := loadKnown("C20")
@@ -367,151 +408,31 @@ func checkC20(tier string, seed uint64) int {
 	for _, k := range known {
 		knownKeys[k.Key] = k
 	}
-	nhist := uint64(200_000)
-	maxSize := 8
-	if tier == "thorough" {
-		nhist = 20_000_000
-		maxSize = 40
-	}
-	workers := runtime.NumCPU()
-	var next uint64
-	const batch = 512
-	var mu sync.Mutex
-	var firstFail *History
-	knownHit := map[string]*History{}
-	var histories, steps, nontriv uint64
-	var cEx, cFr, cWr, cIr uint64
-	distinct := map[uint64]struct{}{}
-	var samples []interface{}
-	var wg sync.WaitGroup
-	var stop atomic.Bool
-	pgs := make([]*progress, workers)
-	for w := 0; w < workers; w++ {
-		pgs[w] = &progress{}
-		pg := pgs[w]
-		wg.Add(1)
-		go func() {
-			defer wg.Done()
-			localDistinct := map[uint64]struct{}{}
-			var lh, ls, ln, e1, e2, e3, e4 uint64
-			for !stop.Load() {
-				lo := atomic.AddUint64(&next, batch) - batch
-				if lo >= nhist {
-					break
-				}
-				hi := lo + batch
-				if hi > nhist {
-					hi = nhist
-				}
-				for idx := lo; idx < hi && !stop.Load(); idx++ {
-					h := genC20(seed, idx, maxSize)
-					pg.index.Store(idx)
-					lh++
-					ls += uint64(len(h.Steps))
-					cl := classifyC20(h)
-					if cl.exhaustion {
-						e1++
-					}
-					if cl.freeRealloc {
-						e2++
-					}
-					if cl.wrap {
-						e3++
-					}
-					if cl.inrange {
-						e4++
-					}
-					if cl.exhaustion || cl.freeRealloc || cl.wrap {
-						ln++
-						localDistinct[hashHistory(h)] = struct{}{}
-					}
-					v := runC20pg(h, pg)
-					if v != nil {
-						h.Violation = v
-						mu.Lock()
-						if _, isKnown := knownKeys[v.Key]; isKnown {
-							if old := knownHit[v.Key]; old == nil || len(h.Steps) < len(old.Steps) {
-								hc := h
-								knownHit[v.Key] = &hc
-							}
-						} else {
-							if firstFail == nil || h.Index < firstFail.Index {
-								hc := h
-								firstFail = &hc
-							}
-							stop.Store(true)
-						}
-						mu.Unlock()
-					}
-					if (cl.exhaustion && cl.freeRealloc) && idx%(nhist/4+1) < 64 {
-						mu.Lock()
-						if len(samples) < 4 && len(h.Steps) <= 24 {
-							samples = append(samples, map[string]interface{}{"index": idx, "instances": h.Instances, "steps": stepStrings(h.Steps), "drain": true})
-						}
-						mu.Unlock()
-					}
-				}
-			}
-			atomic.AddUint64(&histories, lh)
-			atomic.AddUint64(&steps, ls)
-			atomic.AddUint64(&nontriv, ln)
-			atomic.AddUint64(&cEx, e1)
-			atomic.AddUint64(&cFr, e2)
-			atomic.AddUint64(&cWr, e3)
-			atomic.AddUint64(&cIr, e4)
-			mu.Lock()
-			for k := range localDistinct {
-				distinct[k] = struct{}{}
-			}
-			mu.Unlock()
-		}()
-	}
-	// watchdog: a library call that does not return within 5 s on an allocator of
-	// at most 40 identifiers
-	done := make(chan struct{})
-	go func() { wg.Wait(); close(done) }()
-	var hung *History
-	tick := time.NewTicker(500 * time.Millisecond)
-loop:
-	for {
-		select {
-		case <-done:
-			break loop
-		case <-tick.C:
-			now := time.Now().UnixNano()
-			for _, pg := range pgs {
-				b := pg.busy.Load()
-				if b != 0 && now-b > int64(5*time.Second) {
-					h := genC20(seed, pg.index.Load(), maxSize)
-					st := int(pg.step.Load())
-					if st < len(h.Steps) {
-						h.Steps = h.Steps[:st+1]
-						h.Drain = false
-					}
-					op := "Allocate"
-					if st < len(h.Steps) {
-						op = h.Steps[st].Op
-					}
-					h.Violation = &Viol{Key: "C20:" + op + "/no-return", Step: st, Detail: "library call did not return within 5 s"}
-					hung = &h
-					break loop
-				}
-			}
-		}
-	}
-	tick.Stop()
+	maxSize := c20MaxSize(tier)
+	res := c20Engine.explore(seed, tier)
 	wall := time.Since(t0).Seconds()
-	rc := 0
-	nviol := 0
-	if hung != nil {
+	rc, nviol := 0, 0
+	switch {
+	case res.hang != nil:
 		// confirm in a fresh process (which has its own timer)
+		hung := res.hang
 		path := writeReplay(*hung, "C20-"+sanitize(strings.TrimPrefix(hung.Violation.Key, "C20:"))+".json")
 		v := replayChild("c20", path)
+		if v == nil || v.Key != hung.Violation.Key {
+			// perhaps it only hangs after the histories that preceded it in its worker
+			withPre := *hung
+			withPre.Prelude = &Prelude{Tier: tier, From: res.failRange[0], To: hung.Index}
+			path = writeReplay(withPre, "C20-"+sanitize(strings.TrimPrefix(hung.Violation.Key, "C20:"))+".json")
+			v = replayChild("c20", path)
+		}
 		if v != nil && v.Key == hung.Violation.Key {
 			if k, ok := knownKeys[v.Key]; ok {
 				fmt.Printf("KNOWN-FINDING: property=C20 %s\n", k.Text)
 			} else {
-				fmt.Printf("C20 violated: %s\n  %s\n", v.Key, v.Detail)
+				fmt.Printf("C20 violated: %s\n  %s\n  history prefix: %s\n", v.Key, v.Detail, strings.Join(stepStrings(hung.Steps), " "))
+				for i, ic := range hung.Instances {
+					fmt.Printf("  instance #%d: NewGenerator(%d,%d)\n", i, ic.Min, ic.Max)
+				}
 				fmt.Printf("VIOLATION property=C20 replay=%s\n", path)
 				rc = 1
 				nviol++
@@ -520,57 +441,53 @@ loop:
 			fmt.Fprintf(os.Stderr, "histcheck: a call timed out but the prefix does not time out again in a fresh process; treating as machinery trouble\n")
 			os.Exit(2)
 		}
-	} else {
-		keys := make([]string, 0, len(knownHit))
-		for k := range knownHit {
+	default:
+		keys := make([]string, 0, len(res.knownHits))
+		for k := range res.knownHits {
 			keys = append(keys, k)
 		}
 		sort.Strings(keys)
 		for _, k := range keys {
-			min := shrink(*knownHit[k], runC20, c20ShrinkArgs)
-			writeReplay(min, "C20-known-"+sanitize(k)+".json")
+			min := shrink(res.knownHits[k], runC20, c20ShrinkArgs)
 			fmt.Printf("KNOWN-FINDING: property=C20 %s [%s; e.g. %s]\n", knownKeys[k].Text, k, strings.Join(stepStrings(min.Steps), " "))
 		}
-		if firstFail != nil {
+		if res.fail != nil {
 			nviol++
-			min := shrink(*firstFail, runC20, c20ShrinkArgs)
-			rc = report("C20", min, nil, func(p string) *Viol { return replayChild("c20", p) })
+			rc = c20Engine.confirm(*res.fail, res.failRange, tier, nil)
 		}
 	}
+	samples := histSamples(res.samples)
 	if len(samples) == 0 {
-		h := genC20(seed, 0, maxSize)
-		samples = append(samples, map[string]interface{}{"index": 0, "instances": h.Instances, "steps": stepStrings(h.Steps), "drain": true})
+		samples = histSamples([]History{genC20(seed, 0, maxSize)})
 	}
 	writeEvidence(&Evidence{
 		PropertyID: "C20", Tier: tier, Seed: seed, Level: "exploration",
 		Coverage: map[string]interface{}{
-			"evaluations":         histories,
-			"distinct_nontrivial": len(distinct),
+			"evaluations":         res.histories,
+			"distinct_nontrivial": res.distinct,
 			"rule": fmt.Sprintf("one seeded history per index: 1-3 interleaved allocators with min in %v and 1..%d identifiers (10 %% of them with sizes next to powers of two up to 257), up to 6*size steps of Allocate / Allocate_inRange / FreeID in fill, free and mixed phases (every 50th history is a churn history of 600-4600 steps), "+
 				"then a drain phase (Allocate until failure); non-trivial = the history reaches exhaustion, re-allocates after a free, or allocates more than size identifiers in total (scan offset wraps); "+
 				"distinct = distinct FNV-64 hashes of (instances, steps) among those", c20mins, maxSize),
-			"samples":                          samples,
-			"steps_executed":                   steps,
-			"nontrivial_histories":             nontriv,
-			"histories_with_exhaustion":        cEx,
-			"histories_with_free_then_realloc": cFr,
-			"histories_with_offset_wrap":       cWr,
-			"histories_with_allocate_in_range": cIr,
-			"histories_per_hour":               float64(histories) / wall * 3600,
-			"known_findings_hit":               len(knownHit),
-			"fault_kinds_injected":             map[string]int{},
-			"fault_kinds_note":                 "none available: IDGenerator is a single-owner object with no I/O, clock, lock or peer (its mutex is commented out and C20 is about one sequence of operations); the only quantifier is the operation history",
-			"simulated_time":                   "none (no timers in the object)",
-			"real_vs_stub":                     map[string]string{"uePolicyContainer.IDGenerator": "real code from /repo working tree", "reference model": "set of live identifiers in the harness", "scheduler": "history and instance interleaving decided by the seeded generator"},
-			"invariants_per_step":              []string{"returned id within [min,max]", "returned id not live", "Allocate fails only when all identifiers are live"},
-			"end_of_history":                   "drain: every non-live identifier is handed out exactly once within (size-|live|) Allocate calls, the next Allocate fails (bounded liveness, and 'a freed identifier becomes allocatable again')",
-			"hang_handling":                    "every library call is timed; a call that exceeds 5 s is re-run from its history prefix in a fresh process and reported as no-return only if it hangs there too",
-			"determinism":                      "history is a pure function of (seed, index); replay file re-executed in a fresh process before any VIOLATION is printed",
+			"samples":              samples,
+			"steps_executed":       res.steps,
+			"nontrivial_histories": res.nontrivial,
+			"history_classes":      res.classes,
+			"worker_processes":     res.processes,
+			"histories_per_hour":   float64(res.histories) / wall * 3600,
+			"known_findings_hit":   len(res.knownHits),
+			"fault_kinds_injected": map[string]int{},
+			"fault_kinds_note":     "none available: IDGenerator is a single-owner object with no I/O, clock, lock or peer (its mutex is commented out and C20 is about one sequence of operations); the only quantifier is the operation history",
+			"simulated_time":       "none (no timers in the object)",
+			"real_vs_stub":         map[string]string{"uePolicyContainer.IDGenerator": "real code from /repo working tree", "reference model": "set of live identifiers in the harness", "scheduler": "history and instance interleaving decided by the seeded generator; worker processes execute their index range sequentially on one goroutine"},
+			"invariants_per_step":  []string{"returned id within [min,max]", "returned id not live", "Allocate fails only when all identifiers are live"},
+			"end_of_history":       "drain: every non-live identifier is handed out exactly once within (size-|live|) Allocate calls, the next Allocate fails (bounded liveness, and 'a freed identifier becomes allocatable again')",
+			"hang_handling":        "every library call is timed; a call that exceeds 5 s ends its worker, the history prefix is re-run in a fresh process and reported as no-return only if it hangs there too",
+			"determinism":          "a history is a pure function of (seed, tier, index); workers are sequential processes; the replay file (with the preceding histories of its range if needed) is re-executed in a fresh process before any VIOLATION is printed",
 		},
 		Assumptions: []string{
 			"allocators with max < min are outside the property and are not generated",
 			"a failing Allocate_inRange is unconstrained; a successful one need not lie in [lo,hi] (the property does not say so)",
-			"bounded depth: at most 6*size steps per allocator before the drain phase",
+			"bounded depth: at most 6*size steps per allocator before the drain phase (churn class: up to 4600)",
 		},
 		WallS: wall, Violations: nviol,
 	})
